@@ -42,6 +42,7 @@ import multiprocessing
 import os
 import sys
 from concurrent.futures import Future, ProcessPoolExecutor, as_completed
+from fnmatch import fnmatch
 from pathlib import Path
 
 from src.core.base import BaseLintContext, BaseLintRule
@@ -351,12 +352,37 @@ class Orchestrator:  # thailint: ignore[srp]
         """
         violations = []
         for rule in rules:
+            if self._section_ignores_file(rule, context):
+                continue
             rule_violations = self._drop_suppressed(self._safe_check_rule(rule, context), context)
             _verif_emit(
                 "check", rule=rule.rule_id, path=str(context.file_path), n=len(rule_violations)
             )
             violations.extend(rule_violations)
         return violations
+
+    def _section_ignores_file(self, rule: BaseLintRule, context: BaseLintContext) -> bool:
+        """Honour `<linter>: {ignore: [patterns]}` uniformly, also for rules that never read it.
+
+        The section is the one named like the rule id's prefix (nesting, lbyl, cqs, performance,
+        stateless-class, ...); patterns are matched against the path inside the project.
+        """
+        if context.file_path is None:
+            return False
+        name = rule.rule_id.split(".")[0]
+        section = self.config.get(name, self.config.get(name.replace("-", "_")))
+        patterns = section.get("ignore") if isinstance(section, dict) else None
+        if not isinstance(patterns, list) or not patterns:
+            return False
+        inside = self._project_relative(Path(context.file_path))
+        # a file outside the project has no path inside it: only its name can match
+        relative = Path(context.file_path).name if inside.is_absolute() else inside.as_posix()
+        return any(
+            isinstance(pattern, str)
+            and pattern
+            and (pattern in relative or fnmatch(relative, pattern) or fnmatch("/" + relative, pattern))
+            for pattern in patterns
+        )
 
     def _drop_suppressed(
         self, violations: list[Violation], context: BaseLintContext
